@@ -13,13 +13,31 @@ RULE = ("the real standard Engine.price driven by a scripted process with prescr
         "(forwards/calls with their own notionals; scalar-valued controls broadcast to all components or vector-valued controls with one "
         "strike per component; scalar or per-component prices, exact or perturbed), spot statistics on/off; directed: constant control, "
         "constant payoff, two paths, collinear controls (singular covariance matrix: pseudo-inverse path) for scalar and vector payoffs, "
-        "vector identity. non-trivial = at least 3 paths with non-constant payoff; distinct = distinct (paths, product, controls)")
+        "vector identity; engine reuse (one Engine priced 2-3 times, paths / payoff dimension / controls changing). "
+        "Shared-object histories (probe c07.shared): product, control-product, ControlVariates, ConfigurationStandard and Engine OBJECTS built "
+        "once and used for 2-4 pricings in a row (a second ControlVariates object may share the same control objects; engine and configuration "
+        "kept or rebuilt per pricing) on scripted processes of dimension 1-3 whose representation (LOG / IDENTITY), time grid, paths (spot path "
+        "+ pure-jump factor path), number of paths and discount factor change between the pricings; payoff underlying and 1-3 control "
+        "underlyings drawn from every class of rpylib.product.underlying (Spot, Libors, LogSpot, Asian, Mean, Performances, "
+        "MaximumOfPerformances, NthSpot, Indicators, DefaultTime, DefaultTimeNthUnderlying, NthDefaultTimes; library payoffs Forward / "
+        "Vanilla on scalar underlyings, PayoffOnTheFly weighted sums / calls on vector ones, capped default time), control prices equal to the "
+        "controls' sample means or perturbed; directed: for every (payoff underlying class, control underlying class) pair one ControlVariates "
+        "object priced LOG, IDENTITY, LOG and IDENTITY, LOG on the same spots, with one engine kept or a new engine per pricing. Every pricing is "
+        "judged against the textbook formulas evaluated by the harness on the spot paths and against the same pricing with freshly built objects. "
+        "non-trivial = at least 3 paths with non-constant payoff; distinct = distinct (paths, product, controls) resp. distinct history prefix")
 NOT_PROVED = ["k >= 3 controls: the variance inequality is proved for coefficients solving the normal equations "
               "(cv_var_le_raw_normal_equations); that numpy.linalg.pinv returns such coefficients is oracle-checked (residual), not proved. "
               "For k <= 2 the kernel as coded (guard on every entry of Sigma_X, inverse, pseudo-inverse when singular) is modelled exactly and "
               "proved to solve the normal equations in every branch (kernel2_normal_equations, cv_var_le_raw_vec)",
-              "np.cov / np.linalg.pinv kernels are compared with the model's exact rational formulas, not proved"]
+              "np.cov / np.linalg.pinv kernels are compared with the model's exact rational formulas, not proved",
+              "history independence (objects used before behave like fresh ones; the evaluation of an underlying follows the representation of the "
+              "CURRENT process) is oracle-checked on generated histories, not proved: the Lean model is a model of one fresh run"]
 ASSUMPTIONS = ["standard errors are compared as squares",
+               "shared-object histories: samples are compared with the harness' own evaluation of underlying and payoff at relative 1e-11 (the LOG "
+               "representation goes through exp(log(.))); indicator thresholds sit between grid values and default levels away from the scripted jump "
+               "ratios (no don't-care points); a control whose underlying has the class of the payoff underlying but other parameters, and an NthSpot "
+               "control next to a Spot payoff underlying, are generated rarely and are known defects of the unchanged library "
+               "(known_findings.d/C07.json); normal equations judged only for min|Sigma_X| >= 1e-11 and cond < 1e10",
                "two controls: inputs whose covariance matrix is nearly but not exactly singular (cond > 1e10 with non-zero exact determinant) or "
                "has an entry within a factor 10 of the 1e-12 guard are don't-care points of the float pseudo-inverse / guard (excluded, counted); "
                "tolerance 2^-40 relative to a scale that grows with cond(Sigma_X)/1e3 in the regular branch"]
@@ -289,8 +307,523 @@ def gen_case(rng, n=None):
     return vals, kind, strikes, notional, df, controls, rng.random() < 0.3
 
 
+# ------------------------------------------------------------------------------------------------------------------------------
+# shared-object histories: product / control / ControlVariates / configuration / engine OBJECTS built once and used for several
+# pricings in a row while the process (its representation LOG / IDENTITY, its dimension-compatible paths, its discount factor) and the
+# engine change between the pricings; products and controls on every underlying class of rpylib.product.underlying.  Every pricing is
+# judged (i) against the textbook formulas evaluated by the harness on the spot paths and (ii) against the same pricing done with
+# freshly built objects.
+U_FLAT = ["Spot", "Libors", "LogSpot", "Asian", "Mean", "Performances", "MaxPerf", "Indicators", "DefaultTime"]       # one underlying, 1-d paths
+U_MULTI = ["Spot", "Libors", "LogSpot", "Asian", "Mean", "Performances", "MaxPerf", "NthSpot", "Indicators", "DefaultTimeNth", "NthDefaultTimes"]
+U_PARAM_FREE = ("Spot", "Libors", "LogSpot", "Asian", "Mean")
+LEVELS = [-0.9, -0.4, -1.2, -1.6]            # default levels: far from the multiples of log 2 the scripted jump ratios take
+
+
+def sh_underlying(spec):
+    from rpylib.product import underlying as U
+    n = spec[0]
+    if n == "Spot":
+        return U.Spot()
+    if n == "Libors":
+        return U.Libors()
+    if n == "LogSpot":
+        return U.LogSpot()
+    if n == "Asian":
+        return U.Asian(U.Discretisation.MONTHLY)
+    if n == "Mean":
+        return U.Mean()
+    if n == "Performances":
+        return U.Performances(list(spec[1]))
+    if n == "MaxPerf":
+        return U.MaximumOfPerformances(list(spec[1]))
+    if n == "NthSpot":
+        return U.NthSpot(spec[1])
+    if n == "Indicators":
+        return U.Indicators(list(spec[1]))
+    if n == "DefaultTime":
+        return U.DefaultTime(spec[1])
+    if n == "DefaultTimeNth":
+        return U.DefaultTimeNthUnderlying(list(spec[1]), spec[2])
+    if n == "NthDefaultTimes":
+        return U.NthDefaultTimes(list(spec[1]), spec[2])
+    raise ValueError(n)
+
+
+def _first_default(times, log_jumps, level):
+    idx = [i for i, v in enumerate(np.diff(log_jumps)) if v < level]
+    return float(times[idx[0] + 1]) if idx else math.inf
+
+
+def sh_underlying_value(spec, times, S, J):
+    """textbook value of the underlying on ONE path: S = spot path (shape (T,) or (D, T)), J = path of the pure-jump factor"""
+    n = spec[0]
+    S, J = np.array(S, dtype=float), np.array(J, dtype=float)
+    last = S[..., -1]
+    if n in ("Spot", "Libors"):
+        return last
+    if n == "LogSpot":
+        return np.log(last)
+    if n == "Asian":
+        res, lt = 0.0, 0.0
+        for k, t in enumerate(times):
+            res, lt = res + S[..., k] * (t - lt), t
+        return res / lt
+    if n == "Mean":
+        return float(np.mean(last))
+    if n == "Performances":
+        return np.atleast_1d(last / np.array(spec[1]))
+    if n == "MaxPerf":
+        return float(np.max(last / np.array(spec[1])))
+    if n == "NthSpot":
+        return float(S[spec[1] - 1, -1])
+    if n == "Indicators":
+        return np.array([1.0 if np.all(last > np.array(spec[1])) else 0.0])
+    if n == "DefaultTime":
+        return _first_default(times, np.log(J), spec[1])
+    if n == "DefaultTimeNth":
+        return _first_default(times, np.log(J[spec[2] - 1]), spec[1][spec[2] - 1])
+    if n == "NthDefaultTimes":
+        return sorted(_first_default(times, np.log(J[i]), a) for i, a in enumerate(spec[1]))[spec[2] - 1]
+    raise ValueError(n)
+
+
+def sh_payoff_fn(ps):
+    """the payoff as a plain function of the underlying value (used by the oracle, and handed to PayoffOnTheFly for the w* / capT kinds)"""
+    kind = ps[0]
+    if kind == "forward":
+        return lambda u: u - ps[1]
+    if kind == "call":
+        return lambda u: max(u - ps[1], 0.0)
+    if kind == "put":
+        return lambda u: max(ps[1] - u, 0.0)
+    if kind in ("wsum", "wcall"):
+        wts, k = np.array(ps[1], dtype=float), ps[2]
+        lin = lambda u: float(np.sum(wts[:np.size(u)] * np.atleast_1d(u))) - k
+        return lin if kind == "wsum" else (lambda u: max(lin(u), 0.0))
+    if kind == "capT":
+        return lambda t: float(min(t, ps[1]))
+    raise ValueError(kind)
+
+
+def sh_product(p):
+    from rpylib.product.payoff import Vanilla, Forward, PayoffType, PayoffOnTheFly
+    from rpylib.product.product import Product
+    ps = p["pay"]
+    if ps[0] == "forward":
+        payoff = Forward(strike=ps[1])
+    elif ps[0] in ("call", "put"):
+        payoff = Vanilla(strike=ps[1], payoff_type=PayoffType.CALL if ps[0] == "call" else PayoffType.PUT)
+    else:
+        payoff = PayoffOnTheFly(sh_payoff_fn(ps))
+    return Product(payoff_underlying=sh_underlying(p["und"]), payoff=payoff, maturity=fe.T, notional=p["notional"])
+
+
+class _ShModel:
+    def __init__(self, dim):
+        self._dim = dim
+        self.models = [object() for _ in range(dim)]          # no theoretical density: the engine logs a warning and goes on
+
+    def dimension(self):
+        return self._dim
+
+
+class ScriptedProcess:
+    """stands in for a Lévy process of dimension `dim` simulated in the representation `rep`: the i-th simulated path is the prescribed
+    spot path (its logarithm in the LOG representation), split into a diffusion part and the prescribed pure-jump part"""
+
+    def __init__(self, rep, dim, times, spots, jumps, df, log):
+        from rpylib.process.process import ProcessRepresentation
+        self.process_representation = ProcessRepresentation.LOG if rep == "log" else ProcessRepresentation.IDENDITY
+        self.model = _ShModel(dim)
+        self._dim, self.times, self.spots, self.jumps, self._df = dim, np.array(times, dtype=float), spots, jumps, df
+        self.count, self.log = 0, log
+
+    def dimension(self):
+        return self._dim
+
+    def initialisation(self, product):
+        pass
+
+    def pre_computation(self, mc_paths, product):
+        self.log.append(("pre", 0, int(mc_paths)))
+
+    def deterministic_path(self, times):
+        return np.zeros(len(times))
+
+    def df(self, t):
+        return self._df
+
+    def simulate_one_path(self):
+        from rpylib.process.process import ProcessRepresentation
+        k = self.count
+        self.count += 1
+        self.log.append(("sim", 0, k))
+        s, j = np.array(self.spots[k], dtype=float), np.array(self.jumps[k], dtype=float)
+        if self.process_representation == ProcessRepresentation.LOG:
+            s, j = np.log(s), np.log(j)
+        return fe.StochasticJumpPath(self.times, s - j, j)
+
+
+def sh_known_class(pund, cund):
+    """classes of (payoff underlying, control underlying) on which the UNCHANGED library is known to fail (known_findings.d/C07.json)"""
+    if cund[0] == pund[0] and cund[0] not in U_PARAM_FREE and cund != pund:
+        return "control_same_class_other_parameters"
+    if cund[0] == "NthSpot" and pund[0] == "Spot":
+        return "nthspot_control_spot_payoff_underlying"
+    return None
+
+
+def sh_textbook(hist, step):
+    """textbook samples of one pricing: y (n), X (n, k), prices (k)"""
+    p = hist["products"][step["product"]]
+    f = sh_payoff_fn(p["pay"])
+    n = len(step["spots"])
+    uv = lambda spec, i: sh_underlying_value(spec, step["times"], step["spots"][i], step["jumps"][i])
+    y = np.array([step["df"] * p["notional"] * f(uv(p["und"], i)) for i in range(n)], dtype=float)
+    ctl = [hist["controls"][j] for j in hist["cvs"][step["cv"]]] if step["cv"] is not None else []
+    X = np.array([[step["df"] * c["notional"] * sh_payoff_fn(c["pay"])(uv(c["und"], i)) for c in ctl] for i in range(n)], dtype=float).reshape(n, len(ctl))
+    return y, X, ctl
+
+
+def sh_extract(r, n, k):
+    st = r["stats"]
+    out = dict(rows=np.array(st._payoff_statistics.stats, dtype=float), raw_price=float(np.atleast_1d(st.price(no_control_variates=True))[0]),
+               raw_err=float(np.atleast_1d(st.mc_stddev(no_control_variates=True))[0]), sims=[i for kind_, _, i in r["log"] if kind_ == "sim"])
+    if k:
+        out.update(X=np.array(st._control_variates_statistics.stats, dtype=float), adj=np.array(st._payoff_statistics_with_cv.stats, dtype=float),
+                   adj_price=float(np.atleast_1d(st.price())[0]), adj_err=float(np.atleast_1d(st.mc_stddev())[0]))
+    return out
+
+
+class SharedWorld:
+    """the objects of one history, built once"""
+
+    def __init__(self, hist):
+        from rpylib.montecarlo.configuration import ConfigurationStandard
+        from rpylib.product.product import ControlVariates
+        self.hist = hist
+        self.products = [sh_product(p) for p in hist["products"]]
+        self.controls = [sh_product(c) for c in hist["controls"]]
+        self.cvs = [ControlVariates(products=[self.controls[j] for j in idx], prices=[0.0] * len(idx)) for idx in hist["cvs"]]
+        self.cfg = ConfigurationStandard(mc_paths=1, nb_of_processes=1)
+        self.engine = None
+
+    def price(self, step):
+        from rpylib.montecarlo.configuration import ConfigurationStandard
+        from rpylib.montecarlo.standard.engine import Engine
+        from rpylib.product.product import NoControlVariates
+        log = []
+        proc = ScriptedProcess(step["rep"], self.hist["dim"], step["times"], step["spots"], step["jumps"], step["df"], log)
+        cv = None
+        if step["cv"] is not None:
+            cv = self.cvs[step["cv"]]
+            cv.prices = list(step["prices"])                  # the live object gets the prices of this pricing
+        n = len(step["spots"])
+        if step["config"] == "new":
+            self.cfg = ConfigurationStandard(mc_paths=n, control_variates=cv, activate_spot_statistics=step["spot_stats"], nb_of_processes=1)
+        else:
+            self.cfg.mc_paths, self.cfg.activate_spot_statistics = n, step["spot_stats"]
+            self.cfg.control_variates = cv if cv is not None else NoControlVariates()
+        if step["engine"] == "new" or self.engine is None:
+            self.engine = Engine(configuration=self.cfg, process=proc)
+        else:
+            self.engine.configuration, self.engine.process = self.cfg, proc
+        with np.errstate(all="ignore"):
+            stats = self.engine.price(self.products[step["product"]])
+        return dict(stats=stats, log=log)
+
+
+def sh_fresh(hist, step):
+    """the same pricing with freshly built objects only"""
+    sub = dict(hist, cvs=[hist["cvs"][step["cv"]]] if step["cv"] is not None else [])
+    return SharedWorld(sub).price(dict(step, cv=0 if step["cv"] is not None else None, config="new", engine="new"))
+
+
+def _near(a, b, rel=1e-11):
+    a, b = np.asarray(a, dtype=float), np.asarray(b, dtype=float)
+    return a.shape == b.shape and bool(np.all((a == b) | (np.abs(a - b) <= rel * (1.0 + np.abs(a) + np.abs(b)))))
+
+
+def sh_judge(ctx, hist, i, r, fresh):
+    """judge pricing number i of the history: r = result on the shared objects, fresh = result on fresh objects (or an exception)"""
+    step = hist["steps"][i]
+    desc = dict(history=dict(hist, steps=hist["steps"][:i + 1]), step=i)
+    y, X, ctl = sh_textbook(hist, step)
+    n, k = len(y), len(ctl)
+    pund = hist["products"][step["product"]]["und"]
+    prev = [s for s in hist["steps"][:i] if s["cv"] == step["cv"] and s["cv"] is not None]
+    cls = dict(kind="shared", dim=1, ncontrols=k, process_dim=hist["dim"], rep=step["rep"], step=i,
+               rep_changed=bool(prev and prev[-1]["rep"] != step["rep"]), payoff_underlying=pund[0])
+    known = [sh_known_class(pund, c["und"]) for c in ctl]
+    nontrivial = n >= 3 and len(set(y.tolist())) > 1
+    ctx.count("c07.shared", desc, nontrivial=nontrivial, branch=f"{step['rep']}:cv{k}:step{min(i, 3)}")
+    if isinstance(r, Exception):
+        kn = next((x for x in known if x == "nthspot_control_spot_payoff_underlying"), None)
+        ctx.fail("oracle", "c07.engine_raises", desc, {"what": f"{type(r).__name__}: {r}", "fresh_objects_raise_too": isinstance(fresh, Exception)},
+                 cls=dict(cls, known_class=kn), mirrors_model=(isinstance(r, TypeError) and "positional argument" in str(r)) if kn else None)
+        return
+    e = sh_extract(r, n, k)
+    rows = e["rows"]
+    if e["sims"] != list(range(n)) or rows.shape != (n, 1):
+        ctx.fail("oracle", "c07.each_path_once", desc, {"what": "paths simulated / rows stored", "sims": e["sims"][:10], "rows": list(rows.shape)}, cls=cls)
+        return
+    if not _near(rows[:, 0], y):
+        ctx.fail("oracle", "c07.each_path_once", desc, {"what": "row i is not df*notional*payoff(underlying(path i))", "rows": rows[:6, 0].tolist(),
+                                                         "expected": y[:6].tolist()}, cls=cls)
+        return
+    m, sd = float(np.mean(y)), float(np.std(y, ddof=1) / math.sqrt(n)) if n > 1 else 0.0
+    if not math.isclose(e["raw_price"], m, rel_tol=1e-10, abs_tol=1e-12):
+        ctx.fail("oracle", "c07.price", desc, {"price": e["raw_price"], "expected": m}, cls=cls)
+        return
+    if n > 1 and not math.isclose(e["raw_err"], sd, rel_tol=1e-9, abs_tol=1e-12):
+        ctx.fail("oracle", "c07.stderr", desc, {"mc_stddev": e["raw_err"], "expected": sd, "n": n}, cls=cls)
+        return
+    out = ctx.lean(f"stats {wl(y.tolist())}").split(" ")
+    sc = float(np.max(np.abs(y))) or 1.0
+    if not (close(e["raw_price"], rd(out[0]), scale=sc) and (n < 2 or close(e["raw_err"] ** 2, rd(out[2]), scale=sc * sc))):
+        ctx.fail("corr", "c07.stats.model", desc, {"name": "Drivers/C07 stats vs MCStatistics.price/mc_stddev (shared objects)",
+                                                    "impl": [e["raw_price"], e["raw_err"] ** 2], "model": out}, cls=cls)
+        return
+    if k:
+        if e["X"].shape != (n, k, 1) or e["adj"].shape != (n, 1):
+            ctx.fail("oracle", "c07.cv_shape", desc, {"adjusted": list(e["adj"].shape), "controls": list(e["X"].shape)}, cls=cls)
+            return
+        bad = [j for j in range(k) if not _near(e["X"][:, j, 0], X[:, j])]
+        for j in bad:
+            mirrors = None
+            if known[j] == "control_same_class_other_parameters":      # the recorded faulty value: the control's payoff of the PAYOFF underlying
+                fc = sh_payoff_fn(ctl[j]["pay"])
+                mirrors = _near(e["X"][:, j, 0], [step["df"] * ctl[j]["notional"] * fc(sh_underlying_value(pund, step["times"], s_, j_))
+                                                  for s_, j_ in zip(step["spots"], step["jumps"])])
+            ctx.fail("oracle", "c07.cv_rows", desc, {"what": "control row i is not df*notional*payoff(underlying(path i)) of control j", "control": j,
+                                                      "control_underlying": ctl[j]["und"], "rows": e["X"][:5, j, 0].tolist(), "expected": X[:5, j].tolist()},
+                     cls=dict(cls, known_class=known[j], control_underlying=ctl[j]["und"][0]), mirrors_model=mirrors)
+        if bad:
+            return
+        if any(known):
+            ctx.branches["c07.shared:known_class_control_behaved"] += 1
+        pr = np.array(step["prices"], dtype=float)
+        means_match = bool(np.all(np.abs(np.mean(X, axis=0) - pr) <= 1e-15 * np.maximum(1.0, np.abs(pr))))
+        tol = 1e-9 * (abs(m) + float(np.max(np.abs(y))) + 1.0)
+        if means_match:
+            ctx.branches["c07.cv:identity_premise_holds"] += 1
+            if abs(e["adj_price"] - e["raw_price"]) > tol:
+                ctx.fail("oracle", "c07.cv_mean_identity", desc, {"adjusted": e["adj_price"], "raw": e["raw_price"]}, cls=cls)
+                return
+        if n > k + 1 and e["adj_err"] > e["raw_err"] * (1 + 1e-9) + 1e-13:
+            ctx.fail("oracle", "c07.cv_variance", desc, {"adjusted_err": e["adj_err"], "raw_err": e["raw_err"]}, cls=cls)
+            return
+        # the adjusted rows are Y - b (X - price_X) with b solving the normal equations (b judged through the fitted part only)
+        sxx = np.atleast_2d(np.cov(X.T, bias=True))
+        A, f = X - pr, y - e["adj"][:, 0]
+        scf = float(np.max(np.abs(y))) + float(np.max(np.abs(f))) + 1e-300
+        floor = 1e-10 * (1.0 + float(np.max(np.abs(A))))       # exp(log(.)) leaves ~1e-14 where the textbook sample is exactly 0
+        if float(np.amin(np.abs(sxx))) < 1e-13:                # the coded fall-back: no adjustment at all
+            if float(np.max(np.abs(f))) > 1e-9 * scf + floor:
+                ctx.fail("oracle", "c07.cv_rows", desc, {"what": "a control with zero sample (co)variance: adjusted rows differ from the raw ones"}, cls=cls)
+                return
+        elif float(np.amin(np.abs(sxx))) >= 1e-11 and n > k + 1:
+            with np.errstate(all="ignore"):
+                cond = float(np.linalg.cond(sxx))
+            b_impl, *_ = np.linalg.lstsq(A, f, rcond=None)
+            if float(np.max(np.abs(A @ b_impl - f))) > 1e-7 * scf + floor:
+                ctx.fail("oracle", "c07.cv_rows", desc, {"what": "adjusted rows are not Y - b*(X - price_X) for any coefficient vector b",
+                                                          "distance_to_the_span": float(np.max(np.abs(A @ b_impl - f)))}, cls=cls)
+                return
+            sxy = np.cov(X.T, y, bias=True)[:-1, -1]
+            resid = (X - np.mean(X, axis=0)).T @ (f - np.mean(f)) / n - sxy
+            if cond < 1e10 and float(np.max(np.abs(resid))) > 1e-8 * float(np.max(np.abs(sxy))) * max(1.0, cond / 1e3) \
+                    + floor * (1.0 + float(np.max(np.abs(y)))):
+                ctx.fail("oracle", "c07.cv_normal_equations", desc, {"what": "the regression coefficients used by the engine do not solve the normal equations",
+                                                                    "residual": resid.tolist(), "cond_sigma_x": cond},
+                         cls=dict(cls, near_singular_sigma_x=bool(cond > 1e13)))
+                return
+            if k == 1:
+                o = ctx.lean(f"cv1 {w(float(pr[0]))} {wl(X[:, 0].tolist())} {wl(y.tolist())}").split(" ")
+                b_m, adj_m = rd(o[0]), rdl(o[1])
+                s1 = (sc + abs(float(b_m)) * (float(np.max(np.abs(A))) or 1.0)) * n
+                if not (all(close(p_, q_, scale=s1) for p_, q_ in zip(e["adj"][:, 0], adj_m)) and close(e["adj_price"], rd(o[2]), scale=s1)
+                        and close(e["adj_err"] ** 2, rd(o[3]), scale=s1 * s1)):
+                    ctx.fail("corr", "c07.cv1.model", desc, {"name": "Drivers/C07 cv1 (bStar, adjust) vs compute_coefficients (shared objects)",
+                                                              "impl": [e["adj"][:4, 0].tolist(), e["adj_price"], e["adj_err"] ** 2],
+                                                              "model": [[float(v) for v in adj_m[:4]], float(rd(o[2])), float(rd(o[3])), float(b_m)]}, cls=cls)
+                    return
+    # ---- the same pricing with freshly built objects
+    if isinstance(fresh, Exception):
+        ctx.fail("oracle", "c07.engine_raises", desc, {"what": f"freshly built objects: {type(fresh).__name__}: {fresh}"}, cls=dict(cls, fresh_objects=True))
+        return
+    g = sh_extract(fresh, n, k)
+    names = ["rows", "raw_price", "raw_err"] + (["X", "adj", "adj_price", "adj_err"] if k else [])
+    diff = [nm for nm in names if not _near(e[nm], g[nm], rel=1e-9 if nm.startswith("adj") else 1e-11)]
+    if diff:
+        ctx.fail("oracle", "c07.shared_vs_fresh", desc, {"what": "objects used before give another result than freshly built objects on the same paths",
+                                                          "differs": diff, "shared": [e["raw_price"], e.get("adj_price")],
+                                                          "fresh": [g["raw_price"], g.get("adj_price")]}, cls=cls)
+        return
+    ctx.branches[f"c07.shared:ok:{'rep_changed' if cls['rep_changed'] else 'rep_same'}"] += 1
+
+
+def shared_history(ctx, hist, only=None):
+    """run the history on ONE set of objects; judge every pricing (or only pricing `only`, for a replay)"""
+    world = SharedWorld(hist)
+    for i, step in enumerate(hist["steps"]):
+        try:
+            r = world.price(step)
+        except Exception as ex:                                # noqa
+            r = ex
+        if only is not None and i != only:
+            continue
+        try:
+            fresh = sh_fresh(hist, step)
+        except Exception as ex:                                # noqa
+            fresh = ex
+        sh_judge(ctx, hist, i, r, fresh)
+
+
+def _sh_paths(rng, dim, n, base, nt):
+    shape = (nt,) if dim == 1 else (dim, nt)
+    spots = [(base * (1 + np.array([rng.randint(-40, 64) for _ in range(int(np.prod(shape)))]).reshape(shape) / 64.0)).tolist() for _ in range(n)]
+    jumps = [np.array([2.0 ** rng.choice([-2, -1, -1, 0, 0, 1]) for _ in range(int(np.prod(shape)))]).reshape(shape).tolist() for _ in range(n)]
+    return spots, jumps
+
+
+def _sh_und(rng, name, dim, base):
+    s0 = lambda: [base * rng.choice([0.5, 1.0, 2.0]) for _ in range(dim)]
+    if name in ("Performances", "MaxPerf"):
+        return [name, s0()]
+    if name == "NthSpot":
+        return [name, rng.randint(1, dim)]
+    if name == "Indicators":
+        return [name, [base * (1 + (rng.randint(-30, 20) + 0.5) / 64.0) for _ in range(dim)]]          # half-grid: never equal to a spot
+    if name == "DefaultTime":
+        return [name, rng.choice(LEVELS)]
+    if name in ("DefaultTimeNth", "NthDefaultTimes"):
+        return [name, [rng.choice(LEVELS) for _ in range(dim)], rng.randint(1, dim)]
+    return [name]
+
+
+def _sh_scalarised(und, times, spots, jumps, wts):
+    return [float(np.sum(np.array(wts)[:np.size(v)] * np.atleast_1d(v))) for v in
+            (sh_underlying_value(und, times, s, j) for s, j in zip(spots, jumps))]
+
+
+def _sh_product(rng, und, dim, times, spots, jumps, control):
+    """a product on `und` whose strike sits inside the range of the underlying on the given paths"""
+    if "Default" in und[0]:
+        return dict(und=und, pay=["capT", rng.choice([0.5, 0.75, 1.0])], notional=rng.choice([1.0, 2.0, 0.5]))
+    wts = [rng.choice([1.0, 0.5, 0.25, 2.0]) for _ in range(max(dim, 1))]
+    scalar = und[0] in ("Mean", "MaxPerf", "NthSpot") or (dim == 1 and und[0] in ("Spot", "Libors", "LogSpot", "Asian"))
+    u = _sh_scalarised(und, times, spots, jumps, wts if not scalar else [1.0])
+    k = round(rng.choice(u) * 16) / 16 if und[0] != "Indicators" else 0.25
+    if scalar and rng.random() < 0.7:
+        pay = [rng.choice(["forward", "call"] if control else ["call", "put", "call", "forward"]), k]
+    else:
+        pay = [rng.choice(["wsum", "wcall"] if control else ["wcall", "wcall", "wsum"]), wts if not scalar else [1.0], k]
+    return dict(und=und, pay=pay, notional=rng.choice([1.0, 2.0, 0.5, 10.0] if not control else [1.0, 1.0, 2.5, 0.5]))
+
+
+def gen_shared_history(rng, known_classes=False):
+    dim = rng.choice([1, 1, 2, 3])
+    names = U_FLAT if dim == 1 else U_MULTI
+    base = rng.choice([1.0, 4.0, 100.0])
+    nsteps = rng.choice([2, 2, 3, 4])
+    same_spots = rng.random() < 0.4                      # the same spot paths priced again (in another representation / by another engine)
+    times0 = rng.choice([[0.0, 1.0], [0.0, 0.5, 1.0], [0.0, 0.25, 0.5, 1.0], [0.0, 0.125, 0.75, 1.0]])
+    n0 = rng.choice([3, 4, 5, 8, 16, 30])
+    ref_spots, ref_jumps = _sh_paths(rng, dim, n0, base, len(times0))
+    npool = rng.choice([1, 1, 2])
+    pnames = [rng.choice(names)]
+    pnames += [rng.choice([pnames[0], pnames[0], rng.choice(names)]) for _ in range(npool - 1)]
+    punds = []
+    for nm in pnames:
+        same = [u for u in punds if u[0] == nm]
+        # two products on the same parametric class: the same underlying (other parameters + a control on one of them: known class)
+        punds.append(same[0] if same and not known_classes else _sh_und(rng, nm, dim, base))
+    products = [_sh_product(rng, u, dim, times0, ref_spots, ref_jumps, False) for u in punds]
+    ncontrols = rng.choice([1, 1, 2, 3])
+    cunds = []
+    for _ in range(ncontrols):
+        nm = rng.choice(names)
+        und = _sh_und(rng, nm, dim, base)
+        same = [p["und"] for p in products if p["und"][0] == nm]
+        if same and nm not in U_PARAM_FREE and not known_classes:
+            und = rng.choice(same)                          # same class as a payoff underlying: the same underlying (other parameters: known class)
+        if nm == "NthSpot" and any(p["und"][0] == "Spot" for p in products) and not known_classes:
+            und = _sh_und(rng, "Mean", dim, base)
+        cunds.append(und)
+    controls = [_sh_product(rng, und, dim, times0, ref_spots, ref_jumps, True) for und in cunds]
+    cvs = [list(range(ncontrols))]
+    if ncontrols > 1 and rng.random() < 0.4:
+        cvs.append(sorted(rng.sample(range(ncontrols), rng.randint(1, ncontrols - 1))))     # a second ControlVariates object on the SAME control objects
+    steps = []
+    df0 = rng.choice([1.0, 0.5, 0.75])
+    for i in range(nsteps):
+        if same_spots or i == 0:
+            times, spots, jumps, df = times0, ref_spots, ref_jumps, df0
+        else:
+            times = rng.choice([times0, [0.0, 1.0], [0.0, 0.5, 1.0], [0.0, 0.25, 0.5, 1.0]])
+            n = rng.choice([n0, n0, 3, n0 + 2, 2 * n0])
+            spots, jumps = _sh_paths(rng, dim, n, base, len(times))
+            df = rng.choice([df0, 1.0, 0.5, 0.75])
+        rep = rng.choice(["log", "id"]) if i == 0 else rng.choice(["log", "id", "other", "other"])
+        if rep == "other":
+            rep = "id" if steps[-1]["rep"] == "log" else "log"
+        cv = rng.choice([0, 0, 0, len(cvs) - 1, None]) if i else rng.choice([0, 0, len(cvs) - 1])
+        step = dict(rep=rep, product=rng.randrange(len(products)), cv=cv, times=times, spots=spots, jumps=jumps, df=df,
+                    spot_stats=rng.random() < 0.2, engine=rng.choice(["new", "keep"]), config=rng.choice(["new", "keep"]), prices=[])
+        if cv is not None:
+            _, X, _ = sh_textbook(dict(products=products, controls=controls, cvs=cvs), step)
+            centred = rng.random() < 0.6
+            step["prices"] = [float(v) if centred else float(v) + rng.choice([-0.25, 0.125, 0.5]) for v in np.mean(X, axis=0)]
+        steps.append(step)
+    return dict(dim=dim, products=products, controls=controls, cvs=cvs, steps=steps)
+
+
+def directed_shared_histories():
+    """one ControlVariates object / configuration priced LOG then IDENTITY (and the reverse) on the same spots, a control on every
+    underlying class next to a product on another class; then the same with a fresh engine per pricing"""
+    out = []
+    for dim, names in ((1, U_FLAT), (2, U_MULTI)):
+        rng = __import__("random").Random(7 + dim)
+        times = [0.0, 0.25, 0.5, 1.0]
+        spots, jumps = _sh_paths(rng, dim, 8, 4.0, len(times))
+        for pname in names:
+            pund = _sh_und(rng, pname, dim, 4.0)
+            product = _sh_product(rng, pund, dim, times, spots, jumps, False)
+            cunds = [_sh_und(rng, nm, dim, 4.0) for nm in names if nm != pname and not (nm == "NthSpot" and pname == "Spot")]
+            controls = [_sh_product(rng, u, dim, times, spots, jumps, True) for u in cunds]
+            for order in (["log", "id", "log"], ["id", "log"]):
+                for engine in ("keep", "new"):
+                    hist = dict(dim=dim, products=[product], controls=controls, cvs=[[j] for j in range(len(controls))], steps=[])
+                    for j in range(len(controls)):
+                        for rep in order:
+                            step = dict(rep=rep, product=0, cv=j, times=times, spots=spots, jumps=jumps, df=0.5, spot_stats=False, engine=engine,
+                                        config="keep" if engine == "keep" else "new", prices=[])
+                            _, X, _ = sh_textbook(hist, step)
+                            step["prices"] = [float(v) for v in np.mean(X, axis=0)]
+                            hist["steps"].append(step)
+                    out.append(hist)
+    # the two classes on which the unchanged library is known to fail (known_findings.d/C07.json), so that every run reports them
+    rng = __import__("random").Random(11)
+    times = [0.0, 0.5, 1.0]
+    spots, jumps = _sh_paths(rng, 2, 6, 4.0, len(times))
+    for pund, cund in ((["NthSpot", 1], ["NthSpot", 2]), (["Performances", [4.0, 2.0]], ["Performances", [8.0, 4.0]]), (["Spot"], ["NthSpot", 2])):
+        hist = dict(dim=2, products=[_sh_product(rng, pund, 2, times, spots, jumps, False)],
+                    controls=[_sh_product(rng, cund, 2, times, spots, jumps, True)], cvs=[[0]], steps=[])
+        for rep in ("id", "log"):
+            step = dict(rep=rep, product=0, cv=0, times=times, spots=spots, jumps=jumps, df=0.5, spot_stats=False, engine="new", config="new", prices=[])
+            step["prices"] = [float(v) for v in np.mean(sh_textbook(hist, step)[1], axis=0)]
+            hist["steps"].append(step)
+        out.append(hist)
+    return out
+
+
 def run(ctx):
     rng = ctx.rng
+    for hist in directed_shared_histories():
+        shared_history(ctx, hist)
+    for i in range(ctx.n(120, 1500)):
+        shared_history(ctx, gen_shared_history(rng, known_classes=(i % 8 == 7)))
     for _ in range(ctx.n(250, 4000)):
         vals, kind, strikes, notional, df, controls, spot = gen_case(rng)
         one_case(ctx, vals, kind, strikes, notional, df, controls, spot, "random")
@@ -340,6 +873,9 @@ def run(ctx):
 
 def replay(ctx, rec):
     d = rec["input"]
+    if "history" in d:
+        shared_history(ctx, d["history"], only=d["step"])
+        return
     if "reuse_prefix" in d:
         eng = new_engine()
         for vals, kind, strikes, notional, df, controls, spot in d["reuse_prefix"]:
